@@ -934,65 +934,81 @@ func c05KindMapperContract(i int) string {
 	a, b := fmt.Sprintf("FreshKind%dA", i), fmt.Sprintf("FreshKind%dB", i)
 	var text string
 	goroutines := c05Concurrent
-	switch i % 3 {
+	switch i % 6 {
 	case 0:
 		text = fmt.Sprintf("CREATE (n:%s) RETURN n", a)
 	case 1:
 		text = fmt.Sprintf("CREATE (n:%s:%s)-[:%sE]->(m:%s) RETURN n", a, b, a, a)
-	default:
+	case 2:
 		text = fmt.Sprintf("CREATE (n:%s:%s) RETURN n", a, a)
 		goroutines = 1
+	// already registered and fresh kinds mixed, in every order: the ids must come back in the order of the labels
+	case 3:
+		text = fmt.Sprintf("CREATE (n:%s:NodeKind1) RETURN n", a)
+	case 4:
+		text = fmt.Sprintf("CREATE (n:NodeKind1:%s:NodeKind2:%s) RETURN n", a, b)
+	default:
+		text = fmt.Sprintf("CREATE (n:%s:User:%s)-[:EdgeKind1]->(m:Group:%s:Computer) RETURN n", b, a, a)
 	}
-	outs := make([]c05Outcome, goroutines)
+	translate := func() c05Outcome {
+		m, err, pp := parseQuery(text)
+		if err != nil || pp != "" {
+			return c05Outcome{xlOutcome: xlOutcome{Status: "err", Msg: "parse"}}
+		}
+		return c05Translate(m, mapper, nil)
+	}
+	// first call (registers), a sequential repeat, then the concurrent batch: all byte-equal
+	first := translate()
+	outs := []c05Outcome{translate()}
+	conc := make([]c05Outcome, goroutines)
 	var wg sync.WaitGroup
 	start := make(chan struct{})
 	for g := 0; g < goroutines; g++ {
 		wg.Add(1)
 		go func(g int) {
 			defer wg.Done()
-			m, err, pp := parseQuery(text)
 			<-start
-			if err != nil || pp != "" {
-				outs[g] = c05Outcome{xlOutcome: xlOutcome{Status: "err", Msg: "parse"}}
-				return
-			}
-			outs[g] = c05Translate(m, mapper, nil)
+			conc[g] = translate()
 		}(g)
 	}
 	close(start)
 	wg.Wait()
+	outs = append(outs, conc...)
 	cls, detail := "ok", ""
-	for g := 1; g < goroutines; g++ {
-		if outs[g].key() != outs[0].key() {
-			cls, detail = "kindmapper-contract", fmt.Sprintf("goroutine %d disagrees with goroutine 0: %s", g, firstTextDiff(outs[0].key(), outs[g].key()))
+	for g, o := range outs {
+		if o.key() != first.key() {
+			cls, detail = "kindmapper-contract", fmt.Sprintf("call %d disagrees with the first call: %s", g+2, firstTextDiff(first.key(), o.key()))
 			break
 		}
 	}
 	// the table: one id per kind, one kind per id, ids dense 1..n
-	if cls == "ok" {
-		n := len(mapper.KindToID)
-		maxID := int16(0)
-		for id := range mapper.IDToKind {
-			if id > maxID {
-				maxID = id
-			}
-		}
-		switch {
-		case len(mapper.IDToKind) != n:
-			cls, detail = "kindmapper-contract", fmt.Sprintf("%d kinds but %d ids: a kind was registered more than once", n, len(mapper.IDToKind))
-		case int(maxID) != n:
-			cls, detail = "kindmapper-contract", fmt.Sprintf("ids are not dense: %d kinds, highest id %d", n, maxID)
-		case outs[0].Status == "ok" && n == base:
-			cls, detail = "kindmapper-contract", "CREATE with fresh kinds registered nothing"
-		}
-		for kind, id := range mapper.KindToID {
-			if back, ok := mapper.IDToKind[id]; !ok || !back.Is(kind) {
-				cls, detail = "kindmapper-contract", fmt.Sprintf("kind %s has id %d but that id belongs to %v", kind, id, back)
-			}
+	consistent := true
+	n := len(mapper.KindToID)
+	maxID := int16(0)
+	for id := range mapper.IDToKind {
+		if id > maxID {
+			maxID = id
 		}
 	}
+	switch {
+	case len(mapper.IDToKind) != n:
+		consistent, cls, detail = false, "kindmapper-contract", fmt.Sprintf("%d kinds but %d ids: a kind was registered more than once", n, len(mapper.IDToKind))
+	case int(maxID) != n:
+		consistent, cls, detail = false, "kindmapper-contract", fmt.Sprintf("ids are not dense: %d kinds, highest id %d", n, maxID)
+	case first.Status == "ok" && n == base:
+		consistent, cls, detail = false, "kindmapper-contract", "CREATE with fresh kinds registered nothing"
+	}
+	for kind, id := range mapper.KindToID {
+		if back, ok := mapper.IDToKind[id]; !ok || !back.Is(kind) {
+			consistent, cls, detail = false, "kindmapper-contract", fmt.Sprintf("kind %s has id %d but that id belongs to %v", kind, id, back)
+		}
+	}
+	if cls == "kindmapper-contract" && consistent {
+		// the table is right, only the ORDER of the returned ids differs between the registering call and later calls
+		cls = "kindmapper-id-order"
+	}
 	return fmt.Sprintf("cls=%s st=%s site=InMemoryKindMapper.AssertKinds runs=%d ms=0 label=kindmapper:%s min=%s detail=%s",
-		cls, outs[0].Status, goroutines, strings.ReplaceAll(text, " ", "_"), jsonQuote(text), jsonQuote(detail))
+		cls, first.Status, len(outs)+1, strings.ReplaceAll(text, " ", "_"), jsonQuote(text), jsonQuote(detail))
 }
 
 // ---------------------------------------------------------------- kind mapper race probe (child process)
